@@ -528,6 +528,22 @@ func (f *Fixture) WalkToTop(q string) error {
 	return nil
 }
 
+// WalkIntoWait releases the worker of q from the top of its loop into waitForTask's wait loop (it parks at the first
+// q.select): only valid when a delay is pending (after a failed run), otherwise the shortcut would pick a task.
+func (f *Fixture) WalkIntoWait(q string) error {
+	c := f.Q[q]
+	for _, want := range []string{"q.shortcut", "q.select"} {
+		if !c.Release() {
+			return fmt.Errorf("queue %s: cannot release before %s", q, want)
+		}
+		ev := c.Wait(3 * time.Second)
+		if ev.Kind != "gate" || ev.Gate != want {
+			return fmt.Errorf("queue %s: expected gate %s, got %v", q, want, ev)
+		}
+	}
+	return nil
+}
+
 // WaitHandler waits for the handler of q to return (no gate walking).
 func (f *Fixture) WaitHandlerReturn(q string, max time.Duration) (string, error) {
 	ev := f.Q[q].Wait(max)
